@@ -374,6 +374,54 @@ def default_methods_worker(N):
                     errs.append(("default-unit-prior:input-modified", f"n={n}"))
                 if m.likelihood_evaluations != 0:
                     errs.append(("default-unit-prior:evaluation-counter-changed-by-prior", f"n={n}"))
+    # Model.in_bounds is the gate every proposal relies on: exact, closed-interval comparison with the
+    # declared bounds, field by NAME (whatever the order of the fields in the array), no tolerance
+    class Box(Model):
+        def __init__(self, bounds):
+            self.names = list(bounds)
+            self.bounds = bounds
+
+        def log_prior(self, x):
+            return np.log(self.in_bounds(x), dtype="f8")
+
+        def log_likelihood(self, x):
+            return np.zeros(x.size)
+
+    for bounds in ({"p": [99.0, 100.0], "q": [-1.0, 3.0]}, {"p": [0.0, 1.0], "q": [1e5, 3e5], "r": [-4.0, 4.0]}, {"p": [-1e-3, 1e-3], "q": [0.0, 10.0]}):
+        m = Box(bounds)
+        names = list(bounds)
+        cand = {}
+        for nm_ in names:
+            lo, hi = bounds[nm_]
+            w = hi - lo
+            cand[nm_] = [lo, hi, np.nextafter(lo, -np.inf), np.nextafter(hi, np.inf), np.nextafter(lo, np.inf), np.nextafter(hi, -np.inf), lo - 1e-9 * max(1.0, abs(lo)), hi + 1e-9 * max(1.0, abs(hi)), lo - 1e-6 * max(1.0, abs(lo)), hi + 1e-6 * max(1.0, abs(hi)), hi + 5e-6 * abs(hi), 0.5 * (lo + hi), lo - w, hi + w, np.nan]
+        rows = []
+        for j, nm_ in enumerate(names):
+            for v in cand[nm_]:
+                row = {k_: 0.5 * (bounds[k_][0] + bounds[k_][1]) for k_ in names}
+                row[nm_] = v
+                rows.append(row)
+        for order in (names, names[::-1], names[1:] + names[:1]):
+            # fields in this order, then the non-sampling fields
+            dt = np.dtype([(nm_, "f8") for nm_ in order] + [("logP", "f8"), ("logL", "f8"), ("it", "i4")])
+            arr = np.zeros(len(rows), dtype=dt)
+            for i_, row in enumerate(rows):
+                for nm_ in names:
+                    arr[nm_][i_] = row[nm_]
+            want = np.ones(len(rows), dtype=bool)
+            for nm_ in names:
+                with np.errstate(invalid="ignore"):
+                    want &= ~((arr[nm_] < bounds[nm_][0]) | (arr[nm_] > bounds[nm_][1]))
+            try:
+                with np.errstate(invalid="ignore"):
+                    got = np.asarray(m.in_bounds(arr), dtype=bool)
+            except Exception as e:
+                errs.append((f"in_bounds:raises-{type(e).__name__}", f"{e} order {order}"))
+                continue
+            ran += 1
+            if got.shape != want.shape or np.any(got != want):
+                i_ = int(np.flatnonzero(got != want)[0])
+                errs.append(("in_bounds:differs-from-the-exact-closed-interval-test-by-name", f"fields {order}, bounds {bounds}: point { {nm_: float(arr[nm_][i_]) for nm_ in names} } -> {bool(got[i_])}, expected {bool(want[i_])}"))
     seen, viol = set(), []
     for k, d in errs:
         if k not in seen:
